@@ -433,3 +433,38 @@ def kwarg_programs(dev):
                          "sid": "SRC", "stype": "Trough 100ml", "did": "DST", "dtype": "96 Well", "lc": "W", "md": 6, "reuse": 3}]
         progs.append(h)
     return progs
+
+
+def badwell_programs(dev):
+    """Well ids that do not exist in the labware (out of range or malformed) through every record emitting operation (C08)."""
+    progs = []
+    P, T, Sx = 0, 1, 2
+    bad_plate = [(3, 0), (0, 4), (25, 0), (30, 1), "A1", "A001x", "AA01", "a01", "01A", "", "A-1", "Ä01", "A 01"]
+    bad_trough = [(4, 0), (0, 3), "A1", "E01", "column_01"]
+    k = 0
+    for w in bad_plate:
+        h = _hdr(f"badwell/plate-{k}", dev, base_labware(), flags={"comp": False, "norm": False})
+        w2 = list(w) if isinstance(w, tuple) else w
+        h["ops"] = [
+            {"op": "aspirate", "lw": P, "wells": L([w2]), "vols": S(1), "label": "bad"},
+            {"op": "dispense", "lw": P, "wells": S(w2), "vols": S(1), "label": None},
+            {"op": "transfer", "src": P, "sw": L([w2]), "dst": Sx, "dw": L([(0, 1)]), "vols": S(1), "label": "bad src", "wash": 1},
+            {"op": "transfer", "src": T, "sw": L([(0, 0)]), "dst": P, "dw": L([w2, w2]), "vols": L([1, 2]), "label": "bad dst", "wash": 1},
+            {"op": "distribute", "src": T, "col": 0, "dst": P, "dw": L([w2]), "vol": 1, "label": "bad dist"},
+            {"op": "add", "lw": P, "wells": L([w2]), "vols": S(1), "label": None},
+            {"op": "transfer", "src": T, "sw": L([(0, 0)]), "dst": P, "dw": L([(0, 1)]), "vols": S(1), "label": "fine", "wash": 1},
+        ]
+        progs.append(h)
+        k += 1
+    for w in bad_trough:
+        h = _hdr(f"badwell/trough-{k}", dev, base_labware(), flags={"comp": False, "norm": False})
+        w2 = list(w) if isinstance(w, tuple) else w
+        h["ops"] = [
+            {"op": "aspirate", "lw": T, "wells": L([w2]), "vols": S(1), "label": "bad"},
+            {"op": "transfer", "src": T, "sw": L([w2]), "dst": P, "dw": L([(0, 1)]), "vols": S(1), "label": "bad src", "wash": 1},
+            {"op": "transfer", "src": P, "sw": L([(0, 0)]), "dst": T, "dw": L([w2]), "vols": S(1), "label": "bad dst", "wash": "flush"},
+            {"op": "distribute", "src": T, "col": 0, "dst": T, "dw": L([w2]), "vol": 1, "label": "bad dist"},
+        ]
+        progs.append(h)
+        k += 1
+    return progs
